@@ -87,6 +87,10 @@ class U:
         return "%s%s" % (self.unit, "@epoch" if self.kind == "epoch" else "")
 
 
+def _weak(u):
+    return (u.why or "").startswith(("variable `", "parameter `", "parameter #"))
+
+
 def tokens_of(name):
     name = re.sub(r"([a-z0-9])([A-Z])", r"\1_\2", name)
     return [t for t in name.lower().split("_") if t]
@@ -368,6 +372,11 @@ class UnitChecker:
     def same(self, a, b, node, ctx, sub):
         """a and b must have the same unit"""
         self.stats["checks"] += 1
+        if isinstance(a, U) and isinstance(b, U) and a.unit != b.unit and (_weak(a) or _weak(b)):
+            # a unit read off the NAME of a local variable or parameter is only a hint (renaming is not a behaviour
+            # change): it seeds the inference but a mismatch against it is never reported
+            self.stats["weak_mismatches_not_reported"] = self.stats.get("weak_mismatches_not_reported", 0) + 1
+            return True
         if isinstance(a, U) and isinstance(b, U) and a.unit != b.unit:
             self.flag("R4.unit-mismatch", node, "%s: %s (%s) vs %s (%s)" % (ctx, a.unit, a.why, b.unit, b.why),
                       "%s/%s-vs-%s" % (sub, a.unit, b.unit))
